@@ -20,7 +20,7 @@ RULE = ("stratified + seeded random (configuration, sample) pairs, parameters ov
 REQUIRED = ["range_checked:fixed_alternative_mean", "range_checked:shrink_trunc", "range_checked:optimal_comparison",
             "range_checked:fixed_bet", "range_checked:agrapa", "strictly_above_mu_checked", "sign_entries_checked",
             "one_step_extensions", "regime:fixed_alternative_impossible", "regime:margin_below_rate", "regime:optimal_comparison_u_le_1",
-            "stratum:cap_binds_at_the_default_scale_then_zero", "bets_equal_to_the_cap_at_the_default_scale"]
+            "stratum:cap_binds_at_the_default_scale_then_zero", "bets_equal_to_the_cap_at_the_default_scale", "configurations_whose_bound_is_not_a_dyadic_rational"]
 ASSUMPTIONS = ["mu_j recomputed by an independent loop; 'mu_j < u' for the strict clause means mu_j < u(1-1e-6), the "
                "tolerance the tests themselves use for mu_j = u", "fixed_bet's lambda is the user's; lambda <= 1/u is "
                "generated (the C01 quantifier)", "optimal_comparison mostly with u > 1 (comparison audits), u <= 1 in 20 % of its cases"]
@@ -73,7 +73,7 @@ def run_shard(spec, rec):
                 run_case({"cfg": cfg, "x": x, "stratum": "cap_binds_then_zero"}, rec)
             continue
         combo = RANGE_COMBOS[i % len(RANGE_COMBOS)]
-        cfg = nn.gen_cfg(rng, combo=combo, n_max=rng.choice((2, 4, 8, 12, 12, 40)), allow_not_random=False)
+        cfg = nn.gen_cfg(rng, combo=combo, n_max=rng.choice((2, 4, 8, 12, 12, 40)), allow_not_random=False, nondyadic_u=0.15)
         if combo[1] == "optimal_comparison" and rng.random() < 0.5:
             # margins from 2^-20 to 1/2: u = 2/(2-v)
             v = rng.choice((2.0 ** -20, 2.0 ** -16, 2.0 ** -12, 2.0 ** -8, 2.0 ** -4, 0.25, 0.5))
@@ -92,6 +92,8 @@ def run_case(case, rec):
     cfg, x = case["cfg"], [float(v) for v in case["x"]]
     u, t = cfg["u"], cfg["t"]
     N = nn.cfgN(cfg)
+    if (cfg["u"] * 2.0 ** 30) % 1 != 0:
+        rec.count("configurations_whose_bound_is_not_a_dyadic_rational")
     mu = nn.ref_mu(x, N, t)
     moved = any(abs(m - t) > 0.25 * t for m in mu)
     rec.case(case, nontrivial=moved or len(set(x)) > 1)
